@@ -382,3 +382,19 @@ def frames_equal(a, b):
         elif not np.array_equal(x, y):
             return False, 'column %s: %s' % (c, first_diff(x, y))
     return True, ''
+
+
+def ref_epochs(flat, L, n_epochs):
+    """Partition a flattened table into epochs: row r belongs to epoch k with k*L < closing_r <= (k+1)*L;
+    sample columns become relative to the epoch start, the index restarts at 0."""
+    nm = names(table_center(flat))
+    closing = flat[nm['next']].values.astype(int)
+    scols = [c for c in flat.columns if c.startswith('sample_')]
+    out = []
+    for k in range(n_epochs):
+        rows = np.flatnonzero((closing > k * L) & (closing <= (k + 1) * L))
+        ep = flat.iloc[rows].reset_index(drop=True).copy()
+        for c in scols:
+            ep[c] = ep[c] - k * L
+        out.append(ep)
+    return out
